@@ -136,7 +136,7 @@ func flattenOverlay(repo, verifDir, tags string) (map[string][]byte, *flattenSta
 		return nil, st, nil // no baseline: no flattening
 	}
 	overlay := map[string][]byte{}
-	for round := 0; round < 4; round++ {
+	for round := 0; round < 6; round++ {
 		inv, err := scanInventoryWithOverlay(repo, overlay)
 		if err != nil {
 			return overlay, st, err
@@ -292,8 +292,8 @@ func (fl *flattener) calleeOf(call *ast.CallExpr) *types.Func {
 		id = f
 	case *ast.SelectorExpr:
 		id = f.Sel
-		if sel := fl.pkg.TypesInfo.Selections[f]; sel != nil && sel.Kind() != types.MethodVal {
-			return nil
+		if sel := fl.pkg.TypesInfo.Selections[f]; sel != nil && (sel.Kind() != types.MethodVal || len(sel.Index()) > 1) {
+			return nil // method expressions, and methods promoted through embedding, are left alone
 		}
 	default:
 		return nil
@@ -376,9 +376,18 @@ func (fl *flattener) rewriteFile(f *ast.File, fname string, src []byte) ([]byte,
 		}
 		fd := fl.declOf(fn)
 		site := fmt.Sprintf("%s -> %s (%s)", filepath.Base(fname), fn.Name(), form)
-		if ok, why := inlinable(fd); !ok {
+		if ok, why := inlinable(fd); !ok && !(form == "go" && (why == "defer" || why == "labels" || why == "recover")) {
+			if why == "defer" || why == "labels" || why == "recover" {
+				return // left to the function-literal fallback below
+			}
 			fl.st.Skipped = append(fl.st.Skipped, site+": "+why)
 			return
+		}
+		if form == "go" {
+			if why := fl.signatureProblem(fd, call); why != "" {
+				fl.st.Skipped = append(fl.st.Skipped, site+": "+why)
+				return
+			}
 		}
 		// free package-level identifiers of the callee must mean the same thing at the call site
 		if why := fl.captureProblem(fd, call); why != "" {
@@ -416,6 +425,36 @@ func (fl *flattener) rewriteFile(f *ast.File, fname string, src []byte) ([]byte,
 		}
 		return true
 	})
+	// fallback: any other call of a new helper (in a loop header, under && / ||, in a defer, with defers of its own, ...)
+	// becomes a call of a function literal with the helper's signature and body: the same program, with the helper's
+	// code now a closure of its caller
+	ast.Inspect(f, func(n ast.Node) bool {
+		call, ok := n.(*ast.CallExpr)
+		if !ok {
+			return true
+		}
+		fn := fl.calleeOf(call)
+		if !fl.isNewHelper(fn) {
+			return true
+		}
+		s, e := off(call.Pos()), off(call.End())
+		if covered(s, e) {
+			return true
+		}
+		fd := fl.declOf(fn)
+		site := fmt.Sprintf("%s -> %s (literal)", filepath.Base(fname), fn.Name())
+		text, why := fl.asLiteralCall(fd, fn, call)
+		if why != "" {
+			fl.st.Skipped = append(fl.st.Skipped, site+": "+why)
+			return true
+		}
+		endPos := fset.PositionFor(call.End(), false)
+		text += fmt.Sprintf("/*line %s:%d:%d*/", fname, endPos.Line, endPos.Column)
+		edits = append(edits, edit{start: s, end: e, text: text})
+		rawEdit[len(edits)-1] = true
+		pending = append(pending, site)
+		return false
+	})
 	// a new helper no call site refers to any more (all were expanded) is dropped, so that rules about "who writes /
 	// who calls" see the program as it was before the extraction
 	for _, d := range f.Decls {
@@ -434,7 +473,42 @@ func (fl *flattener) rewriteFile(f *ast.File, fname string, src []byte) ([]byte,
 		if covered(s, e) {
 			continue
 		}
-		blank := strings.Repeat("\n", bytes.Count(src[s:e], []byte("\n")))
+		// keep the file's imports in use: one declaration per imported name the helper referred to
+		keep := map[string]bool{}
+		ast.Inspect(fd, func(n ast.Node) bool {
+			sel, ok := n.(*ast.SelectorExpr)
+			if !ok {
+				return true
+			}
+			id, ok := sel.X.(*ast.Ident)
+			if !ok {
+				return true
+			}
+			if _, isPkg := fl.pkg.TypesInfo.Uses[id].(*types.PkgName); !isPkg {
+				return true
+			}
+			switch o := fl.pkg.TypesInfo.Uses[sel.Sel].(type) {
+			case *types.TypeName:
+				if n, isN := o.Type().(*types.Named); isN && n.TypeParams().Len() > 0 {
+					return true
+				}
+				keep["type _ = "+id.Name+"."+sel.Sel.Name] = true
+			case *types.Const:
+				keep["const _ = "+id.Name+"."+sel.Sel.Name] = true
+			case *types.Func, *types.Var:
+				if sig, isF := o.Type().(*types.Signature); isF && sig.TypeParams().Len() > 0 {
+					return true
+				}
+				keep["var _ = "+id.Name+"."+sel.Sel.Name] = true
+			}
+			return true
+		})
+		var keeps []string
+		for k := range keep {
+			keeps = append(keeps, k)
+		}
+		sort.Strings(keeps)
+		blank := strings.Join(keeps, "; ") + strings.Repeat("\n", bytes.Count(src[s:e], []byte("\n")))
 		edits = append(edits, edit{start: s, end: e, text: blank})
 		rawEdit[len(edits)-1] = true
 		pending = append(pending, filepath.Base(fname)+": dropped unreferenced helper "+fn.Name())
@@ -472,6 +546,118 @@ func (fl *flattener) rewriteFile(f *ast.File, fname string, src []byte) ([]byte,
 
 // callInStmt finds the (single) candidate call of a statement and names the statement form.
 func (fl *flattener) callInStmt(stmt ast.Stmt) (*ast.CallExpr, string) {
+	c, form := fl.callInStmt0(stmt)
+	if c != nil && (form == "go" || fl.isNewHelper(fl.calleeOf(c))) {
+		return c, form
+	}
+	// the helper call may be nested in the statement's expressions: f(x, helper(y)), a := helper(y) + 1, ...
+	switch s := stmt.(type) {
+	case *ast.ExprStmt:
+		if c := fl.nestedHelperCall(nil, []ast.Expr{s.X}); c != nil {
+			return c, "expr-nested"
+		}
+	case *ast.AssignStmt:
+		if c := fl.nestedHelperCall(s.Lhs, s.Rhs); c != nil {
+			return c, "assign"
+		}
+	case *ast.ReturnStmt:
+		if c := fl.nestedHelperCall(nil, s.Results); c != nil {
+			return c, "return"
+		}
+	case *ast.IfStmt:
+		if s.Init == nil {
+			if c := fl.nestedHelperCall(nil, []ast.Expr{s.Cond}); c != nil {
+				return c, "if-cond"
+			}
+		} else if as, ok := s.Init.(*ast.AssignStmt); ok {
+			if c := fl.nestedHelperCall(as.Lhs, as.Rhs); c != nil {
+				return c, "if-init-assign"
+			}
+		}
+	case *ast.DeclStmt:
+		if gd, ok := s.Decl.(*ast.GenDecl); ok && gd.Tok == token.VAR && len(gd.Specs) == 1 {
+			if vs, ok := gd.Specs[0].(*ast.ValueSpec); ok {
+				if c := fl.nestedHelperCall(nil, vs.Values); c != nil {
+					return c, "var"
+				}
+			}
+		}
+	}
+	return nil, ""
+}
+
+// nestedHelperCall finds a call to a new helper inside the expressions of one statement that can be hoisted in front of
+// the statement without changing what is evaluated: it is not under the right operand of && / ||, not inside a function
+// literal, and no other call or channel receive of the statement is evaluated before it.
+func (fl *flattener) nestedHelperCall(lhs, rhs []ast.Expr) *ast.CallExpr {
+	for _, l := range lhs {
+		simple := true
+		ast.Inspect(l, func(n ast.Node) bool {
+			switch x := n.(type) {
+			case *ast.CallExpr, *ast.FuncLit:
+				simple = false
+			case *ast.UnaryExpr:
+				if x.Op == token.ARROW {
+					simple = false
+				}
+			}
+			return simple
+		})
+		if !simple {
+			return nil
+		}
+	}
+	var cand *ast.CallExpr
+	var effects []ast.Node // calls / receives, in source order
+	var guarded []ast.Node // right operands of short-circuit operators
+	for _, r := range rhs {
+		ast.Inspect(r, func(n ast.Node) bool {
+			switch x := n.(type) {
+			case *ast.FuncLit:
+				return false
+			case *ast.BinaryExpr:
+				if x.Op == token.LAND || x.Op == token.LOR {
+					guarded = append(guarded, x.Y)
+				}
+			case *ast.UnaryExpr:
+				if x.Op == token.ARROW {
+					effects = append(effects, x)
+				}
+			case *ast.CallExpr:
+				if tv, ok := fl.pkg.TypesInfo.Types[x.Fun]; ok && (tv.IsType() || tv.IsBuiltin()) {
+					return true // conversions and builtins have no effects of their own
+				}
+				effects = append(effects, x)
+				if cand == nil && fl.isNewHelper(fl.calleeOf(x)) {
+					cand = x
+				}
+			}
+			return true
+		})
+	}
+	if cand == nil {
+		return nil
+	}
+	for _, g := range guarded {
+		if g.Pos() <= cand.Pos() && cand.End() <= g.End() {
+			return nil
+		}
+	}
+	for _, e := range effects {
+		if e == ast.Node(cand) {
+			continue
+		}
+		// an enclosing call is evaluated after its arguments; anything that ends before the candidate starts runs first
+		if e.End() <= cand.Pos() {
+			return nil
+		}
+		// a call whose function operand contains the candidate (helper(x)(y)) is fine; a method call on a receiver
+		// evaluated before is covered by the End() test
+	}
+	return cand
+}
+
+func (fl *flattener) callInStmt0(stmt ast.Stmt) (*ast.CallExpr, string) {
 	asCall := func(e ast.Expr) *ast.CallExpr {
 		for {
 			if p, ok := e.(*ast.ParenExpr); ok {
@@ -504,7 +690,7 @@ func (fl *flattener) callInStmt(stmt ast.Stmt) (*ast.CallExpr, string) {
 		return s.Call, "go"
 	case *ast.IfStmt:
 		if s.Init != nil {
-			if c, form := fl.callInStmt(s.Init); c != nil && (form == "assign" || form == "expr") {
+			if c, form := fl.callInStmt0(s.Init); c != nil && (form == "assign" || form == "expr") {
 				return c, "if-init-" + form
 			}
 			return nil, ""
@@ -723,7 +909,11 @@ func (fl *flattener) expand(stmt ast.Stmt, call *ast.CallExpr, form string, fd *
 			fmt.Fprintf(&b, "var %s %s\n_ = %s\n", nm, rtypes[i], nm)
 		}
 	}
-	fmt.Fprintf(&b, "%s:\nswitch {\ndefault:\n%s\n}\n", label, body)
+	if strings.Contains(body, "break "+label) {
+		fmt.Fprintf(&b, "%s:\nswitch {\ndefault:\n%s\n}\n", label, body)
+	} else {
+		fmt.Fprintf(&b, "{\n%s\n}\n", body) // no return in the body: an unused label would not compile
+	}
 	if len(rtemps) == 0 {
 		fmt.Fprintf(&b, "_ = 0\n")
 	}
@@ -741,7 +931,7 @@ func (fl *flattener) expand(stmt ast.Stmt, call *ast.CallExpr, form string, fd *
 	switch form {
 	case "expr":
 		// results (if any) are discarded
-	case "assign", "return", "var":
+	case "expr-nested", "assign", "return", "var":
 		r := repl(stmt)
 		if r == "" {
 			return "", false
@@ -872,3 +1062,102 @@ func nodeStrRange(fl *flattener, body *ast.BlockStmt) string {
 
 // flattenFileContent lets later rounds read rewritten files.
 var flattenFileContent = map[string][]byte{}
+
+// signatureProblem: the types of the helper's signature must be expressible, with the same meaning, at the call site.
+func (fl *flattener) signatureProblem(fd *ast.FuncDecl, call *ast.CallExpr) string {
+	tmp := &ast.FuncDecl{Body: &ast.BlockStmt{}}
+	var list []ast.Stmt
+	add := func(fl2 *ast.FieldList) {
+		if fl2 == nil {
+			return
+		}
+		for _, f := range fl2.List {
+			list = append(list, &ast.ExprStmt{X: f.Type})
+		}
+	}
+	add(fd.Recv)
+	add(fd.Type.Params)
+	add(fd.Type.Results)
+	tmp.Body.List = list
+	return fl.captureProblem(tmp, call)
+}
+
+// asLiteralCall prints call as a call of a function literal carrying the helper's signature and body.
+func (fl *flattener) asLiteralCall(fd *ast.FuncDecl, fn *types.Func, call *ast.CallExpr) (string, string) {
+	if fd == nil || fd.Body == nil {
+		return "", "no body"
+	}
+	if ok, why := inlinable(fd); !ok && (why == "generic" || why == "recursive" || why == "no body") {
+		return "", why
+	}
+	if why := fl.captureProblem(fd, call); why != "" {
+		return "", why
+	}
+	if why := fl.signatureProblem(fd, call); why != "" {
+		return "", why
+	}
+	fset := fl.pkg.Fset
+	sig := fn.Type().(*types.Signature)
+	var ps, args []string
+	if fd.Recv != nil && len(fd.Recv.List) == 1 {
+		sel, ok := call.Fun.(*ast.SelectorExpr)
+		if !ok {
+			return "", "method not called through a selector"
+		}
+		rn := "_"
+		if len(fd.Recv.List[0].Names) == 1 {
+			rn = fd.Recv.List[0].Names[0].Name
+		}
+		recvExpr := nodeStr(fset, sel.X)
+		rt := fl.pkg.TypesInfo.TypeOf(sel.X)
+		if rt == nil {
+			return "", "untyped receiver"
+		}
+		_, recvIsPtr := sig.Recv().Type().(*types.Pointer)
+		_, argIsPtr := rt.Underlying().(*types.Pointer)
+		if recvIsPtr && !argIsPtr {
+			recvExpr = "&" + recvExpr
+		} else if !recvIsPtr && argIsPtr {
+			recvExpr = "*" + recvExpr
+		}
+		ps = append(ps, rn+" "+nodeStr(fset, fd.Recv.List[0].Type))
+		args = append(args, recvExpr)
+	}
+	if fd.Type.Params != nil {
+		for _, p := range fd.Type.Params.List {
+			if len(p.Names) == 0 {
+				ps = append(ps, "_ "+nodeStr(fset, p.Type))
+				continue
+			}
+			for _, nm := range p.Names {
+				ps = append(ps, nm.Name+" "+nodeStr(fset, p.Type))
+			}
+		}
+	}
+	for _, a := range call.Args {
+		args = append(args, nodeStr(fset, a))
+	}
+	ell := ""
+	if call.Ellipsis.IsValid() {
+		ell = "..."
+	}
+	res := ""
+	if fd.Type.Results != nil && len(fd.Type.Results.List) > 0 {
+		var rs []string
+		for _, r := range fd.Type.Results.List {
+			if len(r.Names) == 0 {
+				rs = append(rs, nodeStr(fset, r.Type))
+				continue
+			}
+			for _, nm := range r.Names {
+				rs = append(rs, nm.Name+" "+nodeStr(fset, r.Type))
+			}
+		}
+		res = " (" + strings.Join(rs, ", ") + ")"
+	}
+	body := nodeStrRange(fl, fd.Body)
+	if body == "" && len(fd.Body.List) > 0 {
+		return "", "body text unavailable"
+	}
+	return "func(" + strings.Join(ps, ", ") + ")" + res + " {" + body + "}(" + strings.Join(args, ", ") + ell + ")", ""
+}
